@@ -112,7 +112,10 @@ theorem C12_case_sound {α} (name : α → Bytes) (l : List α) (n : Bytes) (x :
 a unique case-insensitive match, or no match at all) the client returns it — for requests and names on which Go's
 `strings.EqualFold` is equality of the ASCII lower-casings (`GoCase.foldStable`: every ASCII request on ASCII names —
 `C12_case_ascii` —, also `été`; beyond that EqualFold folds by Unicode tables, K = U+212A, ſ = s, and treats every invalid byte
-as U+FFFD, and the Spec, which folds ASCII letters only, is silent: review finding C3) -/
+as U+FFFD, and the Spec, which folds ASCII letters only, is silent: review finding C3).  `GoCase.goEqualFold` folds by Go's
+own complete `unicode.SimpleFold` tables (Model/GoCaseTables.lean, re-checked against the real `strings.EqualFold` for every
+code point by family `gocase`): for table `Āb` (U+0100) and request `āb` the hypothesis is FALSE and nothing is claimed —
+Go finds the table, and so does the model (second review, point 3). -/
 theorem C12_case (l : List TableInfo) (n : Bytes) (r : Option TableInfo) (hl : GoCase.foldStable (l.map (·.name)) n)
     (h : Spec.lookupName (·.name) l n = some r) : findByName (·.name) l n = r := by
   unfold Spec.lookupName at h
